@@ -23,12 +23,13 @@ pub fn check_bounds(input: &[u8], offset: u32, size: u32, mipmap_index: usize) -
         });
     }
 
-    // Check if offset + size extends beyond input bounds
-    if (offset + size) as usize > input.len() {
+    // Check if offset + size extends beyond input bounds (the sum may exceed u32)
+    let end = offset as u64 + size as u64;
+    if end > input.len() as u64 {
         error!(
             "Offset+size of mipmap {} is out of bounds! {} > {}",
             mipmap_index,
-            offset + size,
+            end,
             input.len()
         );
         return Err(Error::OutOfBounds {
@@ -50,7 +51,7 @@ pub fn get_bounded_slice(
     mipmap_index: usize,
 ) -> ParseResult<&[u8]> {
     check_bounds(input, offset, size, mipmap_index)?;
-    Ok(&input[offset as usize..(offset + size) as usize])
+    Ok(&input[offset as usize..offset as usize + size as usize])
 }
 
 #[cfg(test)]
